@@ -296,3 +296,89 @@ Proof.
             [Twj (TTable (qx 2) None) [Join (JOp JLeft (JUsing [])) (TTable (qx 3) None)]]).
   vm_compute. repeat split; try reflexivity. discriminate.
 Qed.
+
+(** * The DDL core: CREATE TABLE with column definitions (DdlCore.v, DdlCoreProofs.v).
+    Token-level model of Parser::parse_create -> parse_create_table -> parse_columns -> parse_column_def ->
+    parse_optional_column_option / parse_optional_table_constraint and of the Display impls of CreateTable /
+    ColumnDef / ColumnOptionDef / ColumnOption / TableConstraint, over the expression model above and the data
+    type model of C18 (DataTypeRT.v); the dialect records [dd_<dialect>] are regenerated from the running
+    crate (gen/DdlTables.v, gen/DataTypeTables.v).  The names of DdlCore / DdlCoreProofs are used qualified. *)
+Require SqlV.DdlCore SqlV.DdlCoreProofs.
+Require SqlVGen.DataTypeTables SqlVGen.DdlTables.
+
+(** generated side conditions: unknown level 0, AND below BETWEEN, the data type tables are consistent
+    (C18's [family_consistent]), the words that start a column option (NOT NULL DEFAULT PRIMARY UNIQUE CHECK
+    REFERENCES CONSTRAINT) are not absorbed by the type grammar, the dialect parses CREATE TABLE with
+    Parser::parse_create (every dialect but Snowflake) *)
+Lemma C01_ddl_tables_ok : forall d, In d DdlTables.all_ddialects -> DdlCoreProofs.ddialect_ok d = true.
+Proof.
+  intros d H. cbn [DdlTables.all_ddialects In] in H.
+  repeat (destruct H as [H|H]; [subst d; vm_compute; reflexivity|]). destruct H.
+Qed.
+
+(** every dialect record uses the generated data type tables and extends the expression dialect of the same name *)
+Lemma C01_ddl_tables_base :
+  map DdlCore.dtab DdlTables.all_ddialects = map (fun _ => DataTypeTables.dt_tables) DdlTables.all_ddialects /\
+  map DdlCore.dbase DdlTables.all_ddialects =
+    [PrecTables.d_generic; PrecTables.d_ansi; PrecTables.d_bigquery; PrecTables.d_clickhouse; PrecTables.d_databricks;
+     PrecTables.d_duckdb; PrecTables.d_hive; PrecTables.d_mssql; PrecTables.d_mysql; PrecTables.d_postgresql;
+     PrecTables.d_redshift; PrecTables.d_sqlite].
+Proof. split; reflexivity. Qed.
+
+(** the round trip: for EVERY well-formed CREATE TABLE tree of the fragment (not only parser outputs), every
+    dialect, every continuation that ends the statement: parsing the printed tokens returns the tree and the
+    continuation, for every fuel above the number of tokens *)
+Theorem C01_ddl_roundtrip : forall d c rest fuel,
+  In d DdlTables.all_ddialects ->
+  DdlCoreProofs.dwf d c = true -> DdlCoreProofs.dfrag d c rest = true -> DdlCoreProofs.dender rest = true ->
+  (length (DdlCore.dtoks (DdlCore.dtab d) c ++ rest) < fuel)%nat ->
+  DdlCore.parse_create_table_core d fuel (DdlCore.dtoks (DdlCore.dtab d) c ++ rest) = Ok (c, rest).
+Proof.
+  intros d c rest fuel Hin. exact (DdlCoreProofs.ddl_roundtrip d (C01_ddl_tables_ok d Hin) c rest fuel).
+Qed.
+Print Assumptions C01_ddl_roundtrip.
+
+Theorem C01_dtoks_injective : forall d c1 c2,
+  In d DdlTables.all_ddialects ->
+  DdlCoreProofs.dwf d c1 = true -> DdlCoreProofs.dwf d c2 = true ->
+  DdlCoreProofs.dfrag d c1 [] = true -> DdlCoreProofs.dfrag d c2 [] = true ->
+  DdlCore.dtoks (DdlCore.dtab d) c1 = DdlCore.dtoks (DdlCore.dtab d) c2 -> c1 = c2.
+Proof.
+  intros d c1 c2 Hin. exact (DdlCoreProofs.dtoks_injective d (C01_ddl_tables_ok d Hin) c1 c2).
+Qed.
+Print Assumptions C01_dtoks_injective.
+
+(** four conjuncts of [dwf] cannot be dropped: the printed tokens of the tree do not parse back to it
+    (computed witnesses on the generated dialect records; none of these trees is an output of the parser,
+    which rejects the text in the first place) *)
+Definition ddl_x n := DdlCore.EE (TAtom false n).
+Definition ddl_int := DataTypeRT.DOptLen (s2l "Int") None.
+Definition ddl_tbl cols cons : DdlCore.create_table :=
+  {| DdlCore.or_replace := false; DdlCore.temporary := false; DdlCore.if_not_exists := false;
+     DdlCore.tbl_name := [ddl_x 1]; DdlCore.columns := cols; DdlCore.constraints := cons |}.
+Definition ddl_col n t os : DdlCore.column_def := {| DdlCore.cname := n; DdlCore.ctype := t; DdlCore.coptions := os |}.
+Definition ddl_fails d c :=
+  DdlCoreProofs.ddialect_ok d = true /\ DdlCoreProofs.dfrag d c [] = true /\
+  DdlCore.parse_create_table_core d (S (length (DdlCore.dtoks (DdlCore.dtab d) c)))
+    (DdlCore.dtoks (DdlCore.dtab d) c ++ []) <> Ok (c, []).
+
+(** a column named by a word that starts a table constraint: CREATE TABLE x1 (UNIQUE INT) *)
+Example C01_ddl_constraint_word_column_refuted :
+  ddl_fails DdlTables.dd_generic (ddl_tbl [ddl_col (DdlCore.kt DdlCore.WUnique) ddl_int []] []).
+Proof. vm_compute. repeat split; try reflexivity. discriminate. Qed.
+(** SQLite: an untyped column whose first option is NULL: CREATE TABLE x1 (x2 NULL) reads NULL as the type *)
+Example C01_ddl_sqlite_untyped_null_refuted :
+  ddl_fails DdlTables.dd_sqlite
+    (ddl_tbl [ddl_col (ddl_x 2) DataTypeRT.DUnspecified [{| DdlCore.oname := None; DdlCore.oopt := DdlCore.ONull |}]] []).
+Proof. vm_compute. repeat split; try reflexivity. discriminate. Qed.
+(** trailing commas (DuckDB): a column list whose second name is a reserved word: UNIQUE (x2, FROM) *)
+Example C01_ddl_trailing_reserved_column_refuted :
+  ddl_fails DdlTables.dd_duckdb
+    (ddl_tbl [ddl_col (ddl_x 2) ddl_int []]
+       [{| DdlCore.tname := None; DdlCore.tbody := DdlCore.TUnique [ddl_x 2; DdlCore.EE (TKw KFrom)] |}]).
+Proof. vm_compute. repeat split; try reflexivity. discriminate. Qed.
+(** an empty column list: UNIQUE () *)
+Example C01_ddl_empty_column_list_refuted :
+  ddl_fails DdlTables.dd_generic
+    (ddl_tbl [ddl_col (ddl_x 2) ddl_int []] [{| DdlCore.tname := None; DdlCore.tbody := DdlCore.TUnique [] |}]).
+Proof. vm_compute. repeat split; try reflexivity. discriminate. Qed.
